@@ -170,6 +170,7 @@ impl<'a> Printer<'a> {
             }
             MExpr::Timing(n, u) => {
                 self.tok(n);
+                self.osp();
                 self.tok(u)
             }
             MExpr::Imag(n) => {
@@ -974,7 +975,7 @@ impl<'a> Gen<'a> {
             16 => {
                 if let Some(q) = self.qubit(env) {
                     let num = if self.rng.below(3) == 0 { format!("{}.5", self.rng.below(9)) } else { (1 + self.rng.below(50)).to_string() };
-                    return MStmt::Delay(MExpr::Timing(num, self.pick(&["ns", "us", "dt", "ms"])), vec![q]);
+                    return MStmt::Delay(MExpr::Timing(num, self.pick(&["ns", "us", "dt", "ms", "µs", "s"])), vec![q]);
                 }
                 MStmt::Empty
             }
